@@ -1,4 +1,5 @@
 import Cgm.Lemmas.AuditCmd
 import Cgm.Props.C05
 import Cgm.Props.C05b
+import Cgm.Props.C05c
 #audit_namespace Cg.C05
